@@ -96,6 +96,9 @@ func convertToParagraph(data reflect.Value) (*Paragraph, error) {
 
 		required := fieldType.Tag.Get("required") == "true"
 		if data == "" && !required {
+			/* the field was cleared: the value it had when the
+			 * Paragraph was read must not come back */
+			foundParagraph = foundParagraph.without(paragraphKey)
 			continue
 		}
 
